@@ -110,6 +110,15 @@ theorem tie_findfiles_every_level :
     Generated.C15.snapshotFindReadersLoops = ["files"] :=
   ⟨rfl, rfl, rfl, rfl, rfl, rfl, rfl, rfl, rfl⟩
 
+/-- the table builder's writer: every `Write` goes through the one buffered writer (so bytes reach
+the file in the order written, whatever their size); its buffer size is the centre of the
+harness's `write-buffer-threshold` region -/
+theorem tie_bufio_writer :
+    Generated.C15.defaultWriteBufferSize = 262144 ∧
+    Generated.C15.bufioStreamWriteStmts =
+      ["n, err := sw.w.Write(content)", "if err != nil { return 0, err }", "sw.size += int64(n)", "return n, nil"] :=
+  ⟨rfl, rfl⟩
+
 /-! ## table files -/
 
 /-- **table_get.** A table built by any well-formed mix of `Add` and stream writes can be closed
@@ -450,6 +459,40 @@ theorem find_readers_all (K : KeySetOps B) (hK : K.Lawful) (fs : Nat → Option 
   have := hrange e he
   rw [hek] at this
   exact (mem_findFiles levels key f).mpr ⟨hf, this⟩
+
+/-- **find_readers_error_or_all.** When some tables cannot be opened (`cache.GetReader` fails for
+them — file moved away, EMFILE, mmap error), `FindReaders(key)` and `Load(key)` either return an
+error — exactly when one of the files covering the key is among them — or deliver every reader /
+every value: never a silent subset. -/
+theorem find_readers_error_or_all (K : KeySetOps B) (hK : K.Lawful) (fs : Nat → Option Bytes)
+    (openFails : Nat → Bool)
+    (levels : List (List FileMeta)) (src : FileMeta → List Put) (key : Nat)
+    (hbuilt : ∀ f ∈ levels.flatten, src f ≠ [] ∧ (∀ it ∈ src f, it.entry.1 < 4294967296) ∧
+      SizeOK (accepted ((src f).map Put.entry)) ∧
+      ∃ b, Builder.run K (Builder.init K) ((src f).flatMap Put.ops) = some b ∧
+        fs f.fileNumber = b.close K ∧ f.minKey = b.minKey ∧ f.maxKey = b.maxKey) :
+    findReaders K (failing fs openFails) levels key =
+      (if (findFiles levels key).any (fun f => openFails f.fileNumber) then none
+       else some ((findFiles levels key).map (·.fileNumber))) ∧
+    load K (failing fs openFails) levels key =
+      (if (findFiles levels key).any (fun f => openFails f.fileNumber) then none
+       else some (levels.flatten.filterMap (fun f => lookup key (accepted ((src f).map Put.entry))))) := by
+  have hok : VersionOK K fs levels.flatten (fun f => accepted ((src f).map Put.entry)) := by
+    intro f hf
+    obtain ⟨hne, hkeys, hsz, b, hrun, hfile, hmin, hmax⟩ := hbuilt f hf
+    obtain ⟨b', hrun', hinv, hrest⟩ := build_ok hK (src f)
+    have hb : b' = b := by rw [hrun] at hrun'; exact (Option.some.inj hrun').symm
+    subst hb
+    obtain ⟨file, r, hclose, hopen, hrepr⟩ := hrest hne hkeys hsz
+    refine ⟨file, r, by rw [hfile, hclose], hopen, hrepr, ?_⟩
+    intro e he
+    have he' : e ∈ accepted ((src f).map Put.entry) := he
+    rw [hmin, hmax]
+    exact (meta_of_inv hK hinv).2.2.2 (by intro h; rw [h] at he'; simp at he') e he'
+  refine ⟨findReaders_failing fs openFails levels _ key hok, ?_⟩
+  unfold load
+  rw [findFiles_eq]
+  exact loadFiles_failing hK fs openFails _ key levels.flatten hok
 
 /-! ## the hypotheses are satisfiable (non-vacuity) -/
 
